@@ -103,7 +103,9 @@ impl Read for ScriptedReader {
             }
             Ev::Err(k) => {
                 self.calls.push(Call::Failed(buf.len(), k));
-                Err(std::io::Error::new(KINDS[k.min(KINDS.len() - 1)], "scripted"))
+                // every error instance is distinguishable: "fails with the LAST error" is about the
+                // error object, not only about its kind
+                Err(std::io::Error::new(KINDS[k.min(KINDS.len() - 1)], format!("scripted#{}", self.calls.len())))
             }
         }
     }
@@ -205,6 +207,20 @@ struct ReadNExec {
     arena: ByteArena,
 }
 
+impl ReadNExec {
+    fn fresh() -> ReadNExec {
+        ReadNExec { arena: ByteArena::new() }
+    }
+}
+
+/// `read_n` / `ensure_capacity` / `flush_cache` never panic (scripted readers only return errors),
+/// so every op may run while the thread is unwinding (track traits, `unwind.rs`).
+impl crate::unwind::Probe for ReadNExec {
+    fn unwind_safe(&self, _w: &[&str]) -> bool {
+        true
+    }
+}
+
 impl Exec for ReadNExec {
     fn step(&mut self, w: &[&str]) -> StepOut {
         match w {
@@ -230,6 +246,18 @@ impl Exec for ReadNExec {
                     Ok(s) => Ok(s.slice().to_vec()),
                     Err(e) => Err(kind_index(e.kind())),
                 };
+                let mut instance_viol: Option<String> = None;
+                if let Err(e) = &res {
+                    let last_failed = reader.calls.iter().rposition(|c| matches!(c, Call::Failed(..))).map(|i| i + 1);
+                    let want = last_failed.map(|i| format!("scripted#{}", i));
+                    let got = e.get_ref().map(|inner| inner.to_string());
+                    if got != want {
+                        instance_viol = Some(format!(
+                            "C17 the error returned is {:?}, not the last error the reader reported ({:?})",
+                            got, want
+                        ));
+                    }
+                }
                 let reqs: Vec<usize> = reader
                     .calls
                     .iter()
@@ -251,6 +279,7 @@ impl Exec for ReadNExec {
                     self.arena.remaining()
                 ));
                 so.violations = oracle_c17(count, attempts, &reader.calls, &result);
+                so.violations.extend(instance_viol);
                 so.tags.push(match &result {
                     Ok(b) if b.is_empty() => "res_ok_empty".into(),
                     Ok(b) if b.len() == count => "res_ok_full".into(),
@@ -284,7 +313,7 @@ impl Family for ReadNFamily {
     }
 
     fn new_exec(&self) -> Box<dyn Exec> {
-        Box::new(ReadNExec { arena: ByteArena::new() })
+        crate::unwind::UnwindExec::boxed(ReadNExec::fresh)
     }
 
     /// All scripts over {d1, d2, d9, x0, e, x1} up to length 4 (5 thorough)
@@ -359,6 +388,15 @@ impl Family for ReadNFamily {
                     ));
                 }
             }
+        }
+        // track traits: calls made while the thread is unwinding; a history owned by a scope that panics
+        if rng.chance(1, 4) {
+            ops = crate::unwind::sprinkle(rng, ops, 1, 2, |_| true);
+        }
+        if rng.chance(1, 12) {
+            let keep = ops.len().min(4);
+            let inner: Vec<String> = ops[..keep].iter().map(|o| o.trim_start_matches("unwinding ").to_string()).collect();
+            ops.push(format!("scoped_panic {}", inner.join(" ; ")));
         }
         ops
     }
